@@ -9,6 +9,14 @@ import WuffsVerif.Model.Sha256Fips
 namespace WuffsVerif.StdHash
 open WuffsVerif.Sha256Fips
 
+theorem shaUpBlocks_lt' (hh : Sha256H) (x : List UInt8) (h : x.length < 64) :
+    shaUpBlocks hh x = (hh, x) := by
+  rw [shaUpBlocks]; simp only [show ¬ x.length ≥ 64 by omega, ↓reduceDIte]
+
+theorem shaUpBlocks_ge' (hh : Sha256H) (x : List UInt8) (h : x.length ≥ 64) :
+    shaUpBlocks hh x = shaUpBlocks (shaCompress hh (x.take 64)) (x.drop 64) := by
+  rw [shaUpBlocks]; simp only [h, ↓reduceDIte]
+
 /-! ### the bitwise identities -/
 
 theorem rotl_or_eq_ROTR (x : UInt32) (n : Nat) (l r : UInt32) (hl : l = UInt32.ofNat (32 - n))
@@ -80,5 +88,159 @@ theorem beWord_eq (p : Array UInt8) (t : Nat) : beWord p t = word p.toList t := 
   simp only [UInt32.toNat_or, UInt32.toNat_shiftLeft, UInt8.toNat_toUInt32, UInt32.toNat_ofNat']
   have := be_word_nat a.toNat b.toNat c.toNat d.toNat a.toNat_lt b.toNat_lt c.toNat_lt d.toNat_lt
   simpa using this
+
+/-! ### the message schedule -/
+
+/-- the first `t` entries of the mirror's `w` array are the specification's `W_0 … W_{t-1}` -/
+structure SchedRel (w : Array UInt32) (W : List UInt32) (t : Nat) : Prop where
+  len : W.length = t
+  size : w.size = 64
+  eq : ∀ j, j < t → w.getD j 0 = W.getD j 0
+
+theorem schedRel_step (w : Array UInt32) (W : List UInt32) (t : Nat) (h : SchedRel w W t)
+    (h16 : 16 ≤ t) (h64 : t < 64) : SchedRel (shaSchedStep w t) (schedExtend W) (t + 1) := by
+  obtain ⟨hl, hs, he⟩ := h
+  refine ⟨by simp [schedExtend, hl], by simp [shaSchedStep, hs], ?_⟩
+  intro j hj
+  unfold shaSchedStep schedExtend
+  simp only [hl]
+  by_cases hjt : j = t
+  · subst hjt
+    have g1 : (w.setIfInBounds j (((w.getD (j - 2) 0 >>> 10 ^^^ (w.getD (j - 2) 0 <<< 15 ||| w.getD (j - 2) 0 >>> 17) ^^^
+        (w.getD (j - 2) 0 <<< 13 ||| w.getD (j - 2) 0 >>> 19)) + w.getD (j - 7) 0 +
+        (w.getD (j - 15) 0 >>> 3 ^^^ (w.getD (j - 15) 0 <<< 25 ||| w.getD (j - 15) 0 >>> 7) ^^^
+        (w.getD (j - 15) 0 <<< 14 ||| w.getD (j - 15) 0 >>> 18))) + w.getD (j - 16) 0)).getD j 0 =
+        ((w.getD (j - 2) 0 >>> 10 ^^^ (w.getD (j - 2) 0 <<< 15 ||| w.getD (j - 2) 0 >>> 17) ^^^
+        (w.getD (j - 2) 0 <<< 13 ||| w.getD (j - 2) 0 >>> 19)) + w.getD (j - 7) 0 +
+        (w.getD (j - 15) 0 >>> 3 ^^^ (w.getD (j - 15) 0 <<< 25 ||| w.getD (j - 15) 0 >>> 7) ^^^
+        (w.getD (j - 15) 0 <<< 14 ||| w.getD (j - 15) 0 >>> 18))) + w.getD (j - 16) 0 := by
+      simp [Array.getD_eq_getD_getElem?, hs, h64]
+    rw [g1, s1_eq, s0_eq, he _ (by omega), he _ (by omega), he _ (by omega), he _ (by omega)]
+    simp [List.getD_eq_getElem?_getD, hl]
+  · have hlt : j < t := by omega
+    have g1 : ∀ v, (w.setIfInBounds t v).getD j 0 = w.getD j 0 := by
+      intro v
+      simp [Array.getD_eq_getD_getElem?, Ne.symm hjt]
+    rw [g1, he j hlt]
+    simp [List.getD_eq_getElem?_getD, List.getElem?_append_left, hl, hlt]
+
+theorem schedRel_fold : ∀ (n t : Nat) (w : Array UInt32) (W : List UInt32), SchedRel w W t → 16 ≤ t → t + n ≤ 64 →
+    SchedRel ((List.range' t n).foldl shaSchedStep w) (iterate schedExtend n W) (t + n) := by
+  intro n
+  induction n with
+  | zero => intro t w W h _ _; simpa [iterate] using h
+  | succ n ih =>
+    intro t w W h h16 h64
+    rw [List.range'_succ, List.foldl_cons, iterate]
+    have := ih (t + 1) _ _ (schedRel_step w W t h h16 (by omega)) (by omega) (by omega)
+    rw [show t + 1 + n = t + (n + 1) by omega] at this
+    exact this
+
+theorem schedule_eq (p : Array UInt8) :
+    SchedRel (shaSchedule p) (schedule p.toList) 64 := by
+  unfold shaSchedule schedule
+  apply schedRel_fold 48 16 _ _ _ (by omega) (by omega)
+  refine ⟨by simp, by simp, ?_⟩
+  intro j hj
+  have h64 : j < 64 := by omega
+  simp [Array.getD_eq_getD_getElem?, List.getD_eq_getElem?_getD, h64, hj, beWord_eq]
+
+/-! ### the rounds -/
+
+def ShaVars.toF (v : ShaVars) : Vars :=
+  { a := v.a, b := v.b, c := v.c, d := v.d, e := v.e, f := v.f, g := v.g, h := v.h }
+
+theorem shaK_getD (hK : Gen.C07.sha256K.toList = K) (i : Nat) : shaK.getD i 0 = UInt32.ofNat (K.getD i 0) := by
+  rw [← hK]
+  unfold shaK
+  by_cases hi : i < Gen.C07.sha256K.size
+  · simp [Array.getD_eq_getD_getElem?, List.getD_eq_getElem?_getD, hi]
+  · simp [Array.getD_eq_getD_getElem?, List.getD_eq_getElem?_getD, hi]
+
+theorem round_eq (hK : Gen.C07.sha256K.toList = K) (w : Array UInt32) (W : List UInt32) (v : ShaVars) (i : Nat)
+    (hw : w.getD i 0 = W.getD i 0) : (shaRound w v i).toF = round W v.toF i := by
+  unfold shaRound round ShaVars.toF
+  simp only [S1_eq, S0_eq, ch_eq, shaK_getD hK, hw]
+  rfl
+
+theorem foldl_rel {α β γ : Type} (r : α → β) (f : α → γ → α) (g : β → γ → β) :
+    ∀ (l : List γ) (a : α), (∀ x ∈ l, ∀ a, r (f a x) = g (r a) x) → r (l.foldl f a) = l.foldl g (r a) := by
+  intro l
+  induction l with
+  | nil => intro a _; rfl
+  | cons x xs ih =>
+    intro a h
+    rw [List.foldl_cons, List.foldl_cons, ih _ (fun y hy a => h y (List.mem_cons_of_mem _ hy) a),
+      h x List.mem_cons_self]
+
+/-- **The compression function of std/sha256 is FIPS 180-4 §6.2.2** (given that the regenerated K table
+    is the table of cube-root fractions). -/
+theorem shaCompress_eq_fips (hK : Gen.C07.sha256K.toList = K) (hh : Sha256H) (blk : List UInt8) :
+    (shaCompress hh blk).toList = compress hh.toList blk := by
+  have hsched := schedule_eq blk.toArray
+  have hg : ∀ j, hh.getD j 0 = hh.toList.getD j 0 := by
+    intro j; simp [Array.getD_eq_getD_getElem?, List.getD_eq_getElem?_getD]
+  unfold shaCompress compress
+  simp only [hg]
+  have key := foldl_rel ShaVars.toF (shaRound (shaSchedule blk.toArray)) (round (schedule blk)) (List.range 64)
+    { a := hh.toList.getD 0 0, b := hh.toList.getD 1 0, c := hh.toList.getD 2 0, d := hh.toList.getD 3 0,
+      e := hh.toList.getD 4 0, f := hh.toList.getD 5 0, g := hh.toList.getD 6 0, h := hh.toList.getD 7 0 }
+    (by
+      intro i hi v
+      have hi' : i < 64 := by simpa using hi
+      have := hsched.eq i hi'
+      exact round_eq hK _ _ v i this)
+  generalize (List.range 64).foldl (shaRound (shaSchedule blk.toArray)) _ = v at key
+  have e : List.foldl (round (schedule blk))
+      { a := hh.toList.getD 0 0, b := hh.toList.getD 1 0, c := hh.toList.getD 2 0, d := hh.toList.getD 3 0,
+        e := hh.toList.getD 4 0, f := hh.toList.getD 5 0, g := hh.toList.getD 6 0, h := hh.toList.getD 7 0 }
+      (List.range 64) = v.toF := key.symm
+  rw [e]
+  rfl
+
+/-! ### padding, block loop, digest bytes -/
+
+theorem shaPad_eq_fips (msg : List UInt8) : shaPad msg = pad msg := by
+  unfold shaPad pad be64
+  simp only [Nat.shiftRight_eq_div_pow, Nat.mul_comm msg.length 8]
+
+theorem shaUpBlocks_eq_fips (hK : Gen.C07.sha256K.toList = K) : ∀ (fuel : Nat) (hh : Sha256H) (m : List UInt8),
+    m.length ≤ fuel → (shaUpBlocks hh m).1.toList = blocks fuel hh.toList m := by
+  intro fuel
+  induction fuel with
+  | zero =>
+    intro hh m hm
+    rw [shaUpBlocks_lt' hh m (by omega)]
+    rfl
+  | succ fuel ih =>
+    intro hh m hm
+    unfold blocks
+    by_cases h : m.length < 64
+    · rw [if_pos h, shaUpBlocks_lt' hh m h]
+    · rw [if_neg h, shaUpBlocks_ge' hh m (by omega), ih _ _ (by simp only [List.length_drop]; omega),
+        shaCompress_eq_fips hK]
+
+theorem digestWord_eq (w : UInt32) :
+    [(w >>> 24).toUInt8, (w >>> 16).toUInt8, (w >>> 8).toUInt8, w.toUInt8] =
+      [24, 16, 8, 0].map (fun sh => UInt8.ofNat (w.toNat / 2 ^ sh % 256)) := by
+  simp only [List.map_cons, List.map_nil]
+  have h : ∀ (n : Nat) (k : UInt32), k.toNat = n → n < 32 → (w >>> k).toUInt8 = UInt8.ofNat (w.toNat / 2 ^ n % 256) := by
+    intro n k hk hn
+    apply UInt8.toNat_inj.mp
+    rw [UInt32.toNat_toUInt8, UInt32.toNat_shiftRight, hk, Nat.mod_eq_of_lt hn, Nat.shiftRight_eq_div_pow,
+      UInt8.toNat_ofNat']
+    omega
+  rw [h 24 24 rfl (by omega), h 16 16 rfl (by omega), h 8 8 rfl (by omega)]
+  have h0 : w.toUInt8 = UInt8.ofNat (w.toNat / 2 ^ 0 % 256) := by
+    apply UInt8.toNat_inj.mp
+    rw [UInt32.toNat_toUInt8, UInt8.toNat_ofNat']
+    omega
+  rw [h0]
+
+theorem shaDigestBytes_eq_fips (hh : Sha256H) : shaDigestBytes hh = digestBytes hh.toList := by
+  unfold shaDigestBytes digestBytes
+  congr 1
+  funext w
+  exact digestWord_eq w
 
 end WuffsVerif.StdHash
